@@ -298,6 +298,14 @@ def checkCase (c : Case) (st0 : Stats) : IO Stats := do
     st := { st with tvChecks := st.tvChecks + g.checks.length, tvSets := st.tvSets + g.sets.length, tvRsts := st.tvRsts + g.rsts.length,
                     tvEmptyIntervals := st.tvEmptyIntervals + (if g.start == g.stop then 1 else 0) }
   st := { st with tvDuringSets := st.tvDuringSets + (c.tevs.toList.filter fun e => match e with | .set true _ _ => true | _ => false).length }
+  -- same statement skeleton: model and implementation file agree line by line except for the amounts after ADV; then the model's
+  -- groups (exact targets, flush intervals) still describe the implementation's statements and adv_no_drift can be evaluated on the
+  -- implementation's own ADV sums
+  let mut sameSkeleton := tvModel.size == c.tv.size
+  if sameSkeleton then
+    for i in [0:c.tv.size] do
+      if sameSkeleton && String.ofList tvModel[i]! != c.tv[i]! && !(i > 0 && c.tv[i - 1]! == "ADV" && String.ofList tvModel[i - 1]! == "ADV") then
+        sameSkeleton := false
   -- written time of the REAL file never lags the exact target by a picosecond or more, and never runs ahead (adv_no_drift)
   let mut realAdv : Array Nat := #[]
   let mut li := 0
@@ -313,9 +321,9 @@ def checkCase (c : Case) (st0 : Stats) : IO Stats := do
     written := written + realAdv.getD gi g.adv
     gi := gi + 1
     let w : Rat := (written : Rat) / TV.psPerSec
-    if !(w ≤ g.target && g.target < w + 1 / TV.psPerSec) && !driftReported && !tvDiff then
+    if !(w ≤ g.target && g.target < w + 1 / TV.psPerSec) && !driftReported && (!tvDiff || sameSkeleton) then
       driftReported := true
-      fail "PROPFAIL" s!"kind=tv-drift group={gi} written={written}ps exact_target={g.target}s (real ADV values against the exact schedule)"
+      fail "PROPFAIL" s!"kind=tv-drift group={gi} written={written}ps target={g.target}s interval=({g.start}s,{g.stop}s) statements={g.checks.length + g.sets.length + g.rsts.length}: the implementation's cumulative ADV is not within [target - 1ps, target] (adv_no_drift)"
       st := { st with propfails := st.propfails + 1 }
     if w != g.target then st := { st with tvNonzeroRemainders := st.tvNonzeroRemainders + 1 }
   -- (iii) replay outcomes; classify failures by the group the statement belongs to
